@@ -247,6 +247,13 @@ impl<'tcx> Dumper<'tcx> {
                     })
                     .collect();
                 o.set("param_names", J::Arr(names));
+                // generic parameter names in substitution order (parent's first): a call site's `args` list zips with it
+                let g = tcx.generics_of(did);
+                let mut gn: Vec<J> = Vec::new();
+                for i in 0..g.count() {
+                    gn.push(J::s(g.param_at(i, tcx).name.as_str()));
+                }
+                o.set("generics", J::Arr(gn));
             }
             if matches!(kind, DefKind::Closure) {
                 let parent = tcx.typeck_root_def_id(did);
